@@ -36,6 +36,7 @@ BAD = {
 }
 EXTS = (".py", ".ts", ".js", ".rs", ".txt", "")
 _P = {}
+_TIER = {"t": "quick"}
 
 
 class _Tap(logging.Handler):
@@ -138,7 +139,7 @@ def h_read_faults(ctx):
     files = sorted((d / "src").iterdir())
     victim = files[ctx.choice("victim_file", len(files))]
     exc = ctx.pick("error", ("OSError", "PermissionError", "UnicodeDecodeError", "IsADirectoryError"))
-    k = ctx.int("fails_from_read_number", 1, 6)       # the k-th and every later read of the victim fails
+    k = ctx.int("fails_from_read_number", 1, 6 if _TIER["t"] == "quick" else 12)       # the k-th and every later read of the victim fails
     real = Path.read_text
     count = {"n": 0}
 
@@ -189,6 +190,7 @@ ASSUMPTIONS = (
 
 
 def obligations(tier):
+    _TIER["t"] = tier
     return [
         Ob(name="K2a-pathological-contents-among-healthy-files", engine="pathex", harness=h_bad_content,
            functions=["Orchestrator.lint_files/lint_directory/_safe_check_rule", "FileLintContext.file_content", "detect_language", "every rule's check() on the offending file", "CLI commands (in-process)"],
